@@ -24,7 +24,8 @@ def png(w, h, rnd):
 
 def sources():
     out = []
-    metas = ["", "Title: T & \"q\" <1>\n\n", "Title: Plain\nAuthor: A B\ncss: style.css\n\n", "Title: L\nODF Header Level: 3\nHTML Header Level: 2\nBase Header Level: 2\n\n", "Title: E\nuuid: 11111111-2222-3333-4444-555555555555\nDate: 2020-02-02\n\n"]
+    metas = ["", "Title: T & \"q\" <1>\n\n", "Title: Plain\nAuthor: A B\ncss: style.css\n\n", "Title: L\nODF Header Level: 3\nHTML Header Level: 2\nBase Header Level: 2\n\n", "Title: E\nuuid: 11111111-2222-3333-4444-555555555555\nDate: 2020-02-02\n\n",
+             "Title: R & D <x>\nAuthor: Smith & Jones <s@j.org>\nDate: <2020> & later\nuuid: a&b<c>\nLanguage: en\nCopyright: (c) A & B\n\n"]
     heads = ["", "# One\n\ntext\n\n", "# One\n\n## Two & <x>\n\ntext\n\n### Three\n\nmore\n\n"]
     imgs = ["", "![alt](small.png)\n\n", "![big](big.png \"t\") and ![alt](small.png) again ![alt](small.png)\n\n", "![huge](huge.png)\n\n[link](http://x.y/)\n\n", "![missing](nofile.png)\n\n",
             "![a](small.png) text ![b](big.png) more ![c](huge.png) and ![d](small.png)\n\n![e][r]\n\n[r]: big.png \"T\"\n\n",
@@ -45,12 +46,14 @@ def project_pkg(kind, data, plain, null):
     if kind == "epub":
         c = byname.get("META-INF/container.xml", b"").decode("utf-8", "replace"); m = re.search(r'full-path="([^"]*)"', c); r["rootfile"] = m.group(1) if m else ""
         opf = byname.get("OEBPS/main.opf", b"").decode("utf-8", "replace")
-        r["manifest"] = re.findall(r'<item [^>]*href="([^"]*)"', opf)
+        okx, evx, errx = project.xml_events(byname.get("OEBPS/main.opf", b""))
+        r["manifest"] = [a.get("href", "") for (kind_, *rest) in evx if kind_ == "open" and rest[0] == "item" for a in [rest[1]]] if okx else []     # a package document that is not XML lists nothing
         main = byname.get("OEBPS/main.xhtml")
         if main is not None: r["assetrefs"] = sorted(set(re.findall(r'(?:src|href)="assets/(' + UU + ')"', main.decode("utf-8", "replace"))))
     elif kind == "odt":
         mf = byname.get("META-INF/manifest.xml", b"").decode("utf-8", "replace")
-        r["manifest"] = re.findall(r'manifest:full-path="([^"]*)"', mf)
+        okx, evx, errx = project.xml_events(byname.get("META-INF/manifest.xml", b""))
+        r["manifest"] = [a.get("manifest:full-path", "") for (kind_, *rest) in evx if kind_ == "open" and rest[0].endswith("file-entry") for a in [rest[1]]] if okx else []
         c = byname.get("content.xml")
         if c is not None:
             r["assetrefs"] = sorted(set(re.findall(r'xlink:href="Pictures/(' + UU + ')"', c.decode("utf-8", "replace"))))
@@ -116,20 +119,29 @@ def run(tier, seed):
                     trace.append(ev2)
         # the command line, -o
         csel = srcs[:: (4 if tier == "quick" else 1)]
+        # the command line also transcludes: a wildcard marker must pick the same file for the package as for its plain format
+        for ext_, txt in ((".txt", "TXT part\n"), (".html", "HTML <b>part</b>\n"), (".tex", "TEX part\n"), (".fodt", "FODT *part* here\n")):
+            open(os.path.join(wd, "inc" + ext_), "w").write(txt)
+        csel = csel + ["Title: W\n\n# One\n\nbefore {{inc.*}} after\n\n{{inc.txt}}\n\nend\n", "before {{inc.*}} after ![alt](small.png)\n\nend\n"]
+        PLAINOF = {"epub": ["-t", "html", "-f"], "odt": ["-t", "fodt"]}
         def one(a):
             i, src = a
             f = os.path.join(wd, "c%d.txt" % i); open(f, "w").write(src); out = []
             for kind in ("epub", "odt", "bundlezip", "itmz"):
                 o = os.path.join(wd, "c%d.%s" % (i, kind))
                 p = subprocess.run([cli, "-t", kind, "-o", o, os.path.basename(f)], stdout=subprocess.PIPE, stderr=subprocess.PIPE, env=san_env(os.path.join(wd, "cli%d" % i)), timeout=60, cwd=wd)
-                out.append((kind, open(o, "rb").read() if os.path.exists(o) else None, p.returncode))
+                plain = None
+                if kind in PLAINOF and "{{" in src:
+                    q = subprocess.run([cli] + PLAINOF[kind] + [os.path.basename(f)], stdout=subprocess.PIPE, stderr=subprocess.PIPE, env=san_env(os.path.join(wd, "clip%d" % i)), timeout=60, cwd=wd)
+                    plain = q.stdout
+                out.append((kind, open(o, "rb").read() if os.path.exists(o) else None, p.returncode, plain))
             return out
         with concurrent.futures.ThreadPoolExecutor(NCPU) as ex:
             couts = list(ex.map(one, list(enumerate(csel))))
         for src, outs in zip(csel, couts):
             trace.append(dict(e="reset"))
-            for kind, data, rc in outs:
-                ev2 = project_pkg(kind, data, None, data is None or rc != 0); ev2["src"] = src; ev2["dir"] = True; ev2["via"] = "cli"; ev2["readable"] = "nofile" not in src
+            for kind, data, rc, plain in outs:
+                ev2 = project_pkg(kind, data, plain, data is None or rc != 0); ev2["src"] = src; ev2["dir"] = True; ev2["via"] = "cli"; ev2["readable"] = "nofile" not in src
                 trace.append(ev2)
         acc, rejected, states, info = tlc.validate_trace("Package", os.path.join(VERIF, "spec", "Package.cfg"), trace, max_rejects=40, timeout=1500, independent=True)
     finally:
@@ -137,7 +149,7 @@ def run(tier, seed):
     npk = len([e for e in trace if e["e"] == "pkg"])
     chk.add("traces_validated_against_impl", npk - len(rejected))
     chk.cov["evaluations"] = npk; chk.cov["distinct_nontrivial"] = len(srcs)
-    chk.cov["rule"] = "sources = 5 metadata variants x {0, 1, 3 headings} x 7 body variants (no image, tiny, several incl. a re-used one, a 49 KiB incompressible one, a missing file, four inline + one reference image, raw-format spans and blocks); each x {epub, odt, bundlezip, itmz} x {directory given, NULL} via convert_to_data, and via the CLI -o for a subset"
+    chk.cov["rule"] = "sources = 6 metadata variants (one with reserved characters in every key the package documents show) x {0, 1, 3 headings} x 7 body variants (no image, tiny, several incl. a re-used one, a 49 KiB incompressible one, a missing file, four inline + one reference image, raw-format spans and blocks); each x {epub, odt, bundlezip, itmz} x {directory given, NULL} via convert_to_data, and via the CLI -o for a subset"
     chk.sample(dict(src=srcs[5])); chk.sample(dict(members=[m["name"] for m in [e for e in trace if e["e"] == "pkg"][0]["members"]]))
     seen = {}
     for seg, idx in rejected:
